@@ -91,5 +91,12 @@ Definition file_delivery (canon : list block) (start stop bundle : N) : list blo
 
 Definition from_cursor_run (canon forked : list block) (c : cursor) (stop bundle : N) :=
   resolver_run c false forked rs_init (file_delivery canon (rn (cu_lib c)) stop bundle).
-Definition through_cursor_run (canon forked : list block) (start : N) (c : cursor) (stop bundle : N) :=
+(* NewFileSourceThroughCursor: a target cursor whose block is below the start block "has already
+   passed" and is ignored (fix C06-through-cursor-passed, the rule of ForkableHub.SourceThroughCursor):
+   a plain FileSource, every block new+irreversible *)
+Definition through_resolver_run (canon forked : list block) (start : N) (c : cursor) (stop bundle : N) :=
   resolver_run c true forked rs_init (file_delivery canon start stop bundle).
+Definition through_cursor_run (canon forked : list block) (start : N) (c : cursor) (stop bundle : N) :=
+  if rn (cu_blk c) <? start
+  then (map (file_event SNewIrr) (file_delivery canon start stop bundle), RsOk)
+  else through_resolver_run canon forked start c stop bundle.
